@@ -1753,7 +1753,7 @@ MANIFEST = {
             "configurations (basic / at lower / at upper / elsewhere per variable) are finite with the explicit bound confBound = 4^#occurrences; "
             "check_terminates_of_no_repeat: if no configuration repeats along the run, check answers within confBound+1 steps; "
             "check_terminates_bland_partial: termination (and fuel independence) for every state with the tableau invariant under the ONE "
-            "named hypothesis BlandNoRepeat (no configuration repeats under Bland's rule - Dutertre/de Moura's argument, NOT proved in Lean); completeness of the Omega test for exact eliminations was not attempted. In addition every answer of the real Simplex is judged per run: "
+            "named hypothesis BlandNoRepeat (no configuration repeats under Bland's rule - Dutertre/de Moura's argument, NOT proved in Lean; proved only at distance one: bland_no_repeat_adjacent_partial; monitored on every run: no repeat in any check() of the model runs that are compared step by step with the real code); traj_preserves_inv / step_changes_only_entering are ingredients already proved; completeness of the Omega test for exact eliminations was not attempted. In addition every answer of the real Simplex is judged per run: "
             "witnesses go through checkWitness(Q), 'unsatisfiable' answers are certified by checkFarkas whenever Farkas multipliers "
             "can be read from the solver's explanation (internal fields; if not, or if they do not check, the verdict is decided by Z3 - only "
             "a wrong verdict is a violation), branch-and-bound / strict verdicts are compared with Z3 and brute force. OmegaHOL "
